@@ -1205,10 +1205,16 @@ emit(sprint("asm ", a, " ", b, " ", c, " ", d, " ", e, " ", @Q@N1(20, 22)))
 		provNotMain: true,
 		needs2:      true,
 		prov: `
-type @T1 struct{ @f1 int }
+type @T1 struct {
+	@f1 int
+	@F2 string
+}
 
-func @N1(n int) *@T1       { return &@T1{n} }
+func @N1(n int) *@T1       { return &@T1{@f1: n} }
 func (t *@T1) @M1() int    { return t.@f1 * 2 }
+
+// the same identifier is declared by the internal and the external test package too
+func sameName@MK() string { return "pkg" }
 func (t *@T1) @m1() string { return strconv.Itoa(t.@f1 + @P0) }
 func @n2(a, b int) int     { return a*b + 1 }
 `,
@@ -1223,7 +1229,10 @@ import (
 
 var _ = os.Exit
 
+func sameNameT@MK() string { return "internal test" }
+
 func Test@MKInternal(t *testing.T) {
+	_ = sameName@MK() + sameNameT@MK()
 	v := @N1(4)
 	fmt.Println("zqout internal", v.@m1(), @n2(3, 4))
 	if v.@m1() == "" {
@@ -1273,9 +1282,16 @@ import (
 	"@PKGPATH"
 )
 
+func sameName@MK() string  { return "external test" }
+func sameNameT@MK() string { return "external test" }
+
 func Test@MKExternal(t *testing.T) {
+	_ = sameName@MK() + sameNameT@MK()
 	v := @PKGNAME.@N1(21)
-	fmt.Println("zqout external", v.@M1())
+	// a keyed literal and a field selection of a struct that also has an unexported field
+	w := @PKGNAME.@T1{@F2: "lit"}
+	w.@F2 += "+sel"
+	fmt.Println("zqout external", v.@M1(), w.@F2, len(v.@F2))
 	if v.@M1() != 42 {
 		t.Errorf("got %d", v.@M1())
 	}
